@@ -352,6 +352,7 @@ func init() {
 			{H: "H_C11_CanceledResult", K: 30, U: 6, Spin: true},
 			{H: "H_C11_Container", K: 34, U: 4, Spin: true, Preempt: 2, Covers: 2, TimeoutSec: 900},
 			{H: "H_C11_ReplaceBack", K: 40, U: 4, Spin: true, Preempt: 2, TimeoutSec: 900},
+			{H: "H_C11_ClearedThenStale", K: 40, U: 4, Spin: true, Preempt: 2, Covers: 1, TimeoutSec: 900},
 		},
 		Thorough: []Job{
 			{H: "H_C11_Container", K: 34, U: 4, Spin: true, TimeoutSec: 3000, QueryMs: 2400000},
@@ -378,8 +379,9 @@ func init() {
 			{H: "H_C15_Swap", K: 34, U: 3, TimeoutSec: 900},
 			{H: "H_C15_Waiters", K: 34, U: 3, TimeoutSec: 900},
 			{H: "H_C15_Equal", K: 30, U: 3},
+			{H: "H_C15_EqualEmpty", K: 30, U: 3, Covers: 1},
 		},
-		Bounds:  "2 SwapValue incrementers + 1 SetValue + 1 WaitValueChange waiter; writer + WaitValue (cancellable at any moment) + WaitValueWithValidator with an error channel; custom equality; K<=34, U=3",
+		Bounds:  "2 SwapValue incrementers + 1 SetValue + 1 WaitValueChange waiter; writer + WaitValue (cancellable at any moment) + WaitValueWithValidator with an error channel; custom equality (WaitValueChange, and WaitValueEmpty with a non-zero value that equals the zero value); K<=34, U=3",
 		Outside: "more than 3 writers / 2 waiters",
 	}
 	plans["C16"] = Plan{
@@ -388,6 +390,7 @@ func init() {
 			{H: "H_C16_OnceCancel", K: 34, U: 2, Preempt: 1, Covers: 1, TimeoutSec: 700, QueryMs: 300000},
 			{H: "H_C16_OnceRetry", K: 40, U: 3, TimeoutSec: 900},
 			{H: "H_C16_Memo", K: 34, U: 3},
+			{H: "H_C16_OnceCancelErr", K: 34, U: 2, Preempt: 1, Covers: 1, TimeoutSec: 700, QueryMs: 300000},
 		},
 		Thorough: []Job{
 			{H: "H_C16_Once2", K: 30, U: 2, Preempt: 1, TimeoutSec: 3000, QueryMs: 2500000},
